@@ -225,7 +225,8 @@ def rule_d(ctx):
             ctx.ob(R, call.qname, "no history attribute is read before the reset guard", not early, str(early), n.stmt)
     ctx.ob(R, call.qname, "reset() is called when the inner iteration counter is 0", guard_ok, "", call.node)
     cnt = [norm(s.value) for s in ast.walk(call.node) if isinstance(s, ast.Assign) and any(self_attr(t) == "_inner_iteration" for t in s.targets)]
-    ctx.ob(R, call.qname, "inner counter is iteration or iteration % restart", sorted(cnt) == sorted([it_param, f"{it_param} % self._restart"]), str(cnt), call.node)
+    ctx.ob(R, call.qname, "inner counter is iteration or iteration % restart", sorted(cnt) == sorted([it_param, f"{it_param} % self._restart"]) or cnt == [f"{it_param} if self._restart is None else {it_param} % self._restart"]
+           or cnt == [f"{it_param} % self._restart if self._restart is not None else {it_param}"], str(cnt), call.node)
     # call sites
     n_sites = 0
     for f in m.all_funcs():
@@ -401,6 +402,9 @@ def rule_g(ctx):
                     n += 1
                     ctx.instance(R)
                     args = [norm(a) for a in c.args] + [f"{kw.arg}={norm(kw.value)}" for kw in c.keywords]
+                    if any(kw.arg is None for kw in c.keywords) or any(isinstance(a, ast.Starred) for a in c.args):
+                        ctx.ob(R, f.qname, f"`{norm(c.func)}` receives every parameter in its own position", False, "forwarding through * / ** arguments: correspondence not found", c)
+                        continue
                     ok = [norm(a) for a in c.args] == params[:len(c.args)] and all(kw.arg == norm(kw.value) for kw in c.keywords) and len(c.args) + len(c.keywords) == len(params)
                     ctx.ob(R, f.qname, f"`{norm(c.func)}` receives every parameter in its own position", ok, str(args), c)
     ctx.floor(R, 5)
